@@ -437,6 +437,79 @@ def bounded_cross_check(report, tier, seed):
 # ---------------------------------------------------------------------------------------------
 
 
+def _kernel_job(args):
+    """Quantifier part (a): one problem - the kernels as generated WITH and WITHOUT the optimiser, run on the reference
+    machine on the same inputs (zero-sized dimensions and empty tensors included)."""
+    member, seed = args
+    import random as _r
+
+    from tensora.kernel_type import KernelType
+
+    from specs import algebra
+    from specs import ir_sem as S
+    from standins import kernels as K
+
+    out = dict(key=member.key, runs=0, failures=[])
+    kinds = [KernelType.evaluate, KernelType.assemble, KernelType.compute]
+    s1, opt = K.generate(member, kinds, optimise=True)
+    s0, raw = K.generate(member, kinds, optimise=False)
+    if s1 != "ok" or s0 != "ok":
+        return out
+    rng = _r.Random(f"{seed}:{member.key}")
+    a = member.assignment
+    tname = a.target.name
+    ofmt = member.formats[tname]
+    for sizes, inputs in K.input_samples(member, "quick", rng, n_dims=4, n_structs=3):
+        sizes = dict(sizes)
+        for i in a.target.indexes:
+            sizes.setdefault(i, 2)
+        odims = K.output_dims(member, sizes)
+        views = []
+        for mod in (raw, opt):
+            f_eval, f_asm, f_cmp = mod.definitions
+            res = []
+            st, tids = K.fresh_state(member, sizes, inputs)
+            r = K.run_function(f_eval, st)
+            v = K.read_output(st, tids[tname], ofmt, odims) if r[0] == "return" else None
+            res.append((r[0], r[1] if r[0] != "err" else "err", None if v is None or not v.ok else (v.indices, [algebra.Poly.const(x) for x in v.vals])))
+            st2, tids2 = K.fresh_state(member, sizes, inputs)
+            r1 = K.run_function(f_asm, st2)
+            r2 = K.run_function(f_cmp, st2) if r1[0] == "return" else ("skipped", None)
+            v2 = K.read_output(st2, tids2[tname], ofmt, odims) if r2[0] == "return" else None
+            res.append((r1[0], r2[0], None if v2 is None or not v2.ok else (v2.indices, [algebra.Poly.const(x) for x in v2.vals])))
+            views.append(res)
+        out["runs"] += 1
+        unopt, optd = views
+        for name, u, o in (("evaluate", unopt[0], optd[0]), ("assemble;compute", unopt[1], optd[1])):
+            if u[0] != "return" or (name != "evaluate" and u[1] != "return"):
+                continue  # the original does not run safely to completion here: no claim
+            if u != o:
+                out["failures"].append(dict(kernel=name, sizes=sizes, what=f"unoptimised {name}: {str(u)[:200]}; optimised: {str(o)[:200]}",
+                                            inputs={n: d.indices for n, d in inputs.items()}))
+                return out
+    return out
+
+
+def kernel_cross_check(report, tier, seed):
+    from standins import kernels as K
+
+    fam = K.family(tier, seed, 4 if tier == "quick" else 20)
+    t0 = time.time()
+    with mp.get_context("fork").Pool(16) as pool:
+        res = pool.map(_kernel_job, [(m, seed) for m in fam], chunksize=4)
+    runs = sum(r["runs"] for r in res)
+    shown = 0
+    for r in res:
+        for f in r["failures"]:
+            if shown < 5:
+                shown += 1
+                report.violation(f"kernel:{r['key']}"[:140], dict(problem=r["key"], **f, how_to_replay="generate the problem with and without tensora.generate._tensora.peephole (replace it by the identity) and run both kernels on these inputs"), True)
+    report.bounded.append(dict(engine="every kernel kind of the problem family generated with and without the optimiser, both run on the reference IR machine (polynomial values)",
+                               bound=f"{len(fam)} problems x sampled dimension vectors in {{0,1,2}}^n x sampled structures (empty and full included)", evaluations=runs,
+                               distinct_nontrivial=sum(1 for r in res if r["runs"]), rule="one evaluation = evaluate and assemble;compute of one problem on one input, optimised vs unoptimised",
+                               seconds=round(time.time() - t0, 1)))
+
+
 def main(argv):
     tier, seed = env_tier_seed(argv)
     report = Report("C07", tier, seed, "proof", "checks/c07.py (pyvc: AST->z3 VC generator over the real source of tensora/ir/_peephole.py)")
@@ -495,7 +568,8 @@ def main(argv):
     report.guarded("IEEE-754 identity lemmas", lemmas.run, report)
     lemmas_ok = all(o["verdict"] == "discharged" for o in report.obligations[n_before:]) and len(report.obligations) > n_before
     # kind C
-    for mm in bounded_cross_check(report, tier, seed)[:5]:
+    report.guarded("kernels with and without the optimiser", kernel_cross_check, report, tier, seed)
+    for mm in (report.guarded("enumerated and directed trees", bounded_cross_check, report, tier, seed) or [])[:5]:
         report.violation("bounded:" + mm["input"][:60], mm, True)
     report.trusted = [t for t in dict.fromkeys(ctx.trusted) if not (lemmas_ok and (t.startswith("IEEE-754 identities") or t.startswith("int32 -> double")))]
     if lemmas_ok:
